@@ -245,7 +245,7 @@ func itfEnum(ctx *h.Ctx) {
 	}
 	try := func(v int32) bool {
 		r := h.Rec{}
-		checkITF(v, &r)
+		h.Safe(&r, fmt.Sprintf("itf8 codec on %d", v), func() { checkITF(v, &r) })
 		evals++
 		if itf8.Len(v) >= 2 && !isPow2ish32(uint32(v)) {
 			nt++
@@ -306,7 +306,7 @@ func ltfEnum(ctx *h.Ctx) {
 	var evals, nt uint64
 	try := func(v int64) bool {
 		r := h.Rec{}
-		checkLTF(v, &r)
+		h.Safe(&r, fmt.Sprintf("ltf8 codec on %d", v), func() { checkLTF(v, &r) })
 		evals++
 		if ltf8.Len(v) >= 2 && !isPow2ish64(uint64(v)) {
 			nt++
